@@ -11,4 +11,52 @@ RULE = ("schedules of 1..3 concurrent lookups (same and different names, a full-
 ASSUMPTIONS = ["atomicity of the sections between yield points (each runs under m.mu) is what the generated lock skeleton of C07 states",
                "real time is not modelled: 'bounded time' is bounded steps + progress; wall-clock is not measured here (partial)",
                "Go's runtime scheduler inside an atomic section is irrelevant by construction; a select that finds both channels ready may take either branch: the model follows the branch observed"]
-PARTS = [ConcPart(PROP, 0)]
+
+
+class Deadline:
+    """wall-clock monitor (partial): real lookups with real timers"""
+    NAME = "deadline"
+    ENGINE = "deadline"
+    IMPORTS = "From Xds Require Import Model.Base Model.Conc Model.ConcCheck."
+    FN = "dl_check"
+    TY = "dl_case"
+
+    @staticmethod
+    def gen_cases(rng, tier):
+        n = 40 if tier == "quick" else 200
+        items = []
+        for _ in range(n):
+            ft = rng.choice([150, 300, 450])
+            caller = rng.choice(["none", "deadline", "deadline", "cancel"])
+            cm = rng.choice([100, 250, 600, 900])
+            d = min(ft, cm) if caller != "none" else ft
+            dv = rng.choice([-1, -1, max(20, d - 120), d + 150])
+            items.append({"ft_ms": ft, "caller": caller, "caller_ms": cm, "deliver_ms": dv})
+        return [{"item": it} for it in items]
+
+    @staticmethod
+    def run_impl(cases):
+        from . import core
+        res = core.run_harness("deadline", [{"id": 0, "items": [c["item"] for c in cases]}], timeout=120, shards=1)
+        return {c["id"]: r for c, r in zip(cases, res[0]["results"])}
+
+    @staticmethod
+    def to_gallina(c, o):
+        from .core import gN
+        it = c["item"]
+        caller = "None" if it["caller"] == "none" else "(Some %s)" % gN(it["caller_ms"])
+        dv = "None" if it["deliver_ms"] < 0 else "(Some %s)" % gN(it["deliver_ms"])
+        res = {"val": "(Some (RVal 7))", "err": "(Some RErr)", "nil": "(Some RNil)", "bad": "(Some RBad)", "hang": "None"}[o["kind"]]
+        return "Build_dl_case %s %s %s %s %s" % (gN(it["ft_ms"]), caller, dv, gN(o["elapsed_ms"]), res)
+
+    @staticmethod
+    def nontrivial(c, o):
+        import json
+        return json.dumps(c["item"], sort_keys=True)
+
+    @staticmethod
+    def describe(c, o):
+        return {"lookup": c["item"], "returned_after_ms": o["elapsed_ms"], "result": o["kind"]}
+
+
+PARTS = [ConcPart(PROP, 0), Deadline]
